@@ -676,6 +676,7 @@ class _SelfObj(object):
     """An instance of the class under evaluation; .records is its (mutable) record list."""
     def __init__(self):
         self.records = []
+        self.attrs = {}         # further instance attributes (caches, flags) maintained by the class's own methods
 
 
 class _Raised(Exception):
@@ -703,21 +704,54 @@ class RecFn(FlagFn):
         self.collattr = M.coll.split('.', 1)[1] if '.' in M.coll else None
         self.ys = None
         self.SELF = _SelfObj()
+        self.made = []
         self.fallback = {}          # selector name -> row table decided by the interpreter (used when its body is outside this language)
 
     @property
     def records(self):
         return self.SELF.records
 
+    def build(self, values, prefix=''):
+        """A fresh instance holding one record per verdict value, built the way the library builds it: __init__, then one
+        add_sigsubj per record (so that flags / caches the methods maintain are in the state they would really be in).
+        Falls back to placing the records into the collection directly when a mutator is outside the evaluator's language."""
+        obj = _SelfObj()
+        saved = self.SELF
+        self.SELF = obj
+        try:
+            self.made = []
+            init = self.sv.find_method('__init__')
+            if init is not None and init.cls is not None and init.cls.module is self.sv.module:
+                self.apply(_Bound(init), [])
+            if not isinstance(obj.records, list) or obj.records:
+                raise _Unknown('__init__ does not start with an empty record list')
+            for i, v in enumerate(values):
+                self.apply(_Bound(self.M.f), [_Opaque('signature'), _Opaque('by'), _Opaque('subject'), Flag(v)])
+            if [r.value for r in obj.records if isinstance(r, _Rec)] != list(values) or len(obj.records) != len(values):
+                raise _Unknown('add_sigsubj does not append one record per call')
+            for i, r in enumerate(obj.records):
+                r.ident = '%s%d' % (prefix, i) if prefix else i
+        except (_Unknown, _Raised):
+            obj = _SelfObj()
+            obj.records = [_Rec(v, '%s%d' % (prefix, i) if prefix else i) for i, v in enumerate(values)]
+        finally:
+            self.SELF = saved
+        return obj
+
     def run(self, f, records):
-        self.SELF.records = list(records)
+        """records: verdict values (the instance is built through the class's mutators) or ready _Rec objects."""
+        records = list(records)
+        if records and isinstance(records[0], _Rec):
+            self.SELF = _SelfObj()
+            self.SELF.records = records
+        else:
+            self.SELF = self.build(records)
         return self.method(f)
 
     def run_binary(self, f, mine, theirs):
         """Evaluate a binary method (self, other) with both operands instances of the class; returns (result, other object)."""
-        self.SELF.records = list(mine)
-        other = _SelfObj()
-        other.records = list(theirs)
+        self.SELF = self.build(mine, 'a')
+        other = self.build(theirs, 'b')
         if len(f.params) != 2:
             raise _Unknown('signature of %s' % f.name)
         return self.apply(_Bound(f), [other]), other
@@ -733,7 +767,15 @@ class RecFn(FlagFn):
                     v = list(self.iterable(v))
                 base.records = v
                 return
+            if isinstance(base, _SelfObj):
+                base.attrs[st.targets[0].attr] = self.ev(st.value, env, f)
+                return
             raise _Unknown('store to %s' % ast.unparse(st.targets[0]))
+        if isinstance(st, ast.AugAssign) and isinstance(st.target, ast.Attribute) and not isinstance(st.op, ast.Add):
+            base = self.ev(st.target.value, env, f)
+            if isinstance(base, _SelfObj) and st.target.attr in base.attrs:
+                base.attrs[st.target.attr] = self.binop(st.op, base.attrs[st.target.attr], self.ev(st.value, env, f))
+                return
         if isinstance(st, ast.AugAssign) and isinstance(st.op, ast.Add):
             cur = self.ev(ast.Attribute(value=st.target.value, attr=st.target.attr, ctx=ast.Load()) if isinstance(st.target, ast.Attribute)
                           else ast.Name(id=st.target.id, ctx=ast.Load()) if isinstance(st.target, ast.Name) else st.target, env, f)
@@ -771,6 +813,26 @@ class RecFn(FlagFn):
             raise
 
     def ev(self, n, env, f):
+        if isinstance(n, ast.Call) and isinstance(n.func, ast.Attribute) and isinstance(n.func.value, ast.Call) and \
+                dotted(n.func.value.func) == 'super' and n.func.attr == '__init__':
+            return None            # object.__init__: nothing of this class's state
+        if isinstance(n, ast.Call) and isinstance(n.func, ast.Attribute) and n.func.attr in self.M.tuples and \
+                isinstance(self.ev(n.func.value, env, f), _SelfObj):
+            fl = self.M.tuples[n.func.attr]
+            vals = dict(zip(fl, [self.ev(a, env, f) for a in n.args]))
+            for kw in n.keywords:
+                if kw.arg is None:
+                    raise _Unknown('record built from **')
+                vals[kw.arg] = self.ev(kw.value, env, f)
+            iv = vals.get('issues')
+            if set(vals) != set(fl) or not isinstance(iv, int) or isinstance(iv, bool):
+                raise _Unknown('record %s' % ast.unparse(n))
+            r = _Rec(int(iv), len(self.made))
+            self.made.append(r)
+            for k in ROLES[:3]:
+                if k in vals:
+                    r.other[k] = vals[k]
+            return r
         if isinstance(n, ast.Yield):
             self.ys.append(self.ev(n.value, env, f) if n.value is not None else None)
             return None
@@ -781,6 +843,8 @@ class RecFn(FlagFn):
             d = dotted(n)
             if not (d is not None and d.split('.')[-2:-1] == [self.ci.name]):
                 base = self.ev(n.value, env, f)
+                if isinstance(base, _SelfObj) and n.attr != self.collattr and n.attr in base.attrs:
+                    return base.attrs[n.attr]
                 if isinstance(base, _SelfObj) and base is not self.SELF:
                     if n.attr == self.collattr:
                         return base.records
@@ -1007,8 +1071,7 @@ def _concrete_selector(E, P, f):
     tbl = [None] * len(ROWS)
     res = {}
     for L in _record_lists(P):
-        recs = [_Rec(v, i) for i, v in enumerate(L)]
-        out = E.run(f, recs)
+        out = E.run(f, L)
         if out is None or not isinstance(out, (tuple, list)):
             raise _Unknown('selector result %r' % (out,))
         ids = []
@@ -1038,7 +1101,7 @@ def _concrete_bool(E, P, f):
     the result is not the conjunction of the per-record results (or the empty result is falsy)."""
     res = {}
     for L in _record_lists(P):
-        v = E.run(f, [_Rec(x, i) for i, x in enumerate(L)])
+        v = E.run(f, L)
         if isinstance(v, _Rec) or v is None:
             raise _Unknown('truth value %r' % (v,))
         res[L] = bool(v)
@@ -1060,12 +1123,12 @@ def _concrete_bool(E, P, f):
 def _concrete_and(E, P, f):
     """__and__ on record lists of size 0..2 on both sides: the result must be the receiver, holding its records followed by those
     of the other operand.  None when that holds everywhere, else a description of the first counter-example."""
-    vals = _values(P)[:2] or [0]
-    lists = [(), (vals[0],), (vals[0], vals[-1])]
+    bad = [v for v in _values(P) if v and P(v)]
+    g, b = 0, (bad[0] if bad else _values(P)[-1])
+    lists = [(), (g,), (b,), (g, b)]
     for A in lists:
         for B in lists:
-            mine = [_Rec(v, 'a%d' % i) for i, v in enumerate(A)]
-            theirs = [_Rec(v, 'b%d' % i) for i, v in enumerate(B)]
+            mine, theirs = list(A), list(B)
             scen = '%d own record(s) & %d record(s) of the other' % (len(A), len(B))
             try:
                 res, other = E.run_binary(f, mine, theirs)
@@ -1074,9 +1137,20 @@ def _concrete_and(E, P, f):
             if res is not E.SELF:
                 return '%s: returns %s, not the receiver' % (scen, 'the other operand' if res is other else repr(res))
             got = [getattr(r, 'ident', '?') for r in E.SELF.records]
-            want = [r.ident for r in mine + theirs]
+            want = ['a%d' % i for i in range(len(mine))] + ['b%d' % i for i in range(len(theirs))]
             if got != want:
                 return '%s: the result holds %s, expected %s' % (scen, got, want)
+            # whatever the class caches about its records must have been merged too: the combined object is truthy exactly when
+            # none of the records it now holds is bad
+            bf = E.sv.find_method('__bool__')
+            if bf is not None:
+                try:
+                    truth = bool(E.method(bf))
+                except _Unknown:
+                    truth = None
+                want_truth = not any(v and P(v) for v in mine + theirs)
+                if truth is not None and truth != want_truth:
+                    return '%s (%s & %s): the combined result is %s' % (scen, _listname(P, mine), _listname(P, theirs), 'truthy' if truth else 'falsy')
     return None
 
 
